@@ -231,4 +231,57 @@ theorem closeFold_leaves (H : HashFn) (algo : Nat) : ∀ (st : List (Option Node
       rw [this]
       simp [stackLeaves, join_leaves hj, List.append_assoc]
 
+/-! ### the height pre-check predicts the closed root's level exactly -/
+theorem join_level {H : HashFn} {algo : Nat} {l r t : Node} (h : join H algo l r = .ok t) :
+    t.level = max l.level r.level + 1 := by
+  unfold join at h
+  simp only at h
+  split at h
+  · cases h
+  · split at h
+    · cases h
+    · cases h; rfl
+
+/-- closing from an accumulated root walks the remaining slots exactly as `calculateHighestLevel` does -/
+theorem closeFold_level (H : HashFn) (algo : Nat) : ∀ (st : List (Option Node)) (acc r : Node),
+    closeFold H algo (some acc) st = .ok (some r) → r.level = highestLevel st acc.level
+  | [], acc, r, h => by
+    simp only [closeFold, Except.ok.injEq, Option.some.injEq] at h; subst h; rfl
+  | none :: rest, acc, r, h => by
+    simp only [closeFold] at h
+    simpa [highestLevel] using closeFold_level H algo rest acc r h
+  | some n :: rest, acc, r, h => by
+    simp only [closeFold] at h
+    split at h
+    · cases h
+    · rename_i t ht
+      have := closeFold_level H algo rest t r h
+      rw [this, join_level ht]; rfl
+
+/-- **`calculateHighestLevel` is exact**: the level it predicts for "add this node, then close"
+is the level of the root that adding and closing really produces. -/
+theorem insert_close_level (H : HashFn) (algo : Nat) : ∀ (st : List (Option Node)) (n : Node)
+    (st' : List (Option Node)) (r : Node),
+    insert H algo st n = .ok st' → closeFold H algo none st' = .ok (some r) →
+    r.level = highestLevel st n.level
+  | [], n, st', r, hi, hc => by
+    simp only [insert, Except.ok.injEq] at hi; subst hi
+    simp only [closeFold, Except.ok.injEq, Option.some.injEq] at hc; subst hc; rfl
+  | none :: rest, n, st', r, hi, hc => by
+    simp only [insert, Except.ok.injEq] at hi; subst hi
+    simp only [closeFold] at hc
+    simpa [highestLevel] using closeFold_level H algo rest n r hc
+  | some p :: rest, n, st', r, hi, hc => by
+    simp only [insert] at hi
+    split at hi
+    · cases hi
+    · rename_i root hj
+      split at hi
+      · cases hi
+      · rename_i rest' hr
+        simp only [Except.ok.injEq] at hi; subst hi
+        simp only [closeFold] at hc
+        have := insert_close_level H algo rest root rest' r hr hc
+        rw [this, join_level hj]; rfl
+
 end KsiVerif.Tree
